@@ -120,7 +120,9 @@ func Forms() []Form {
 
 	// ---- document
 	io("optimize", multi, func(in, out string) (*cli.Command, error) { return cli.OptimizeCommand(in, out, conf()), nil }).Rep = true
-	io("trim", multi, func(in, out string) (*cli.Command, error) { return cli.TrimCommand(in, out, []string{"1"}, conf()), nil })
+	io("trim", multi, func(in, out string) (*cli.Command, error) {
+		return cli.TrimCommand(in, out, []string{"1"}, conf()), nil
+	})
 	io("collect", multi, func(in, out string) (*cli.Command, error) {
 		return cli.CollectCommand(in, out, []string{"1", "1"}, conf()), nil
 	})
@@ -446,7 +448,7 @@ func Forms() []Form {
 
 // NotDriven: stream-capable leaves that are not in Forms(), with the reason.
 var NotDriven = map[string]string{
-	"signatures validate -": "spools stdin (readSeekerFromStdin) and writes no file; needs a trust store in the config dir, which the file-safety workers disable (driven in C27/C28)",
-	"portfolio remove/extract/list": "same handlers as attachments remove/extract/list (driven there)",
+	"signatures validate -":                  "spools stdin (readSeekerFromStdin) and writes no file; needs a trust store in the config dir, which the file-safety workers disable (driven in C27/C28)",
+	"portfolio remove/extract/list":          "same handlers as attachments remove/extract/list (driven there)",
 	"validate/info/list with several inputs": "one stdin input among files: the same withStdinReadSeeker path as the single-input forms",
 }
